@@ -537,23 +537,23 @@ def scala_bijection(R, ctx, bound):
             bad_b.append(pc)
         else:
             bad_b.append(z3.And(pc, z3.Or(z3.Not(side), p.value.t != iv)))
-    # c) strict VCF order: (k, j) lexicographic order == index order
+    # c) VCF order: the index enumerates (0,0),(0,1),(1,1),(0,2),... i.e. index(0,0) = 0, index(j+1,k) = index(j,k)+1 for
+    #    j < k, and index(0,k+1) = index(k,k)+1  (by induction: index order == VCF order)
     it3 = pyk.Interp(width=32, feas_timeout_ms=3000)
-    j2, k2 = z3.BitVec('j2', 32), z3.BitVec('k2', 32)
-    dom = z3.And(j >= 0, j <= k, k < (1 << 15), j2 >= 0, j2 <= k2, k2 < (1 << 15))
-    it3.assume(dom)
+    it3.assume(z3.And(j >= 0, j <= k, k < (1 << 15)))
     ev3 = scalak.Evaluator(P, it3, on_def=ctx.on_scala)
+    j2, k2 = z3.If(j < k, j + 1, z3.BitVecVal(0, 32)), z3.If(j < k, k, k + 1)
     pc_ = it3.explore(lambda _: (ev3.call('Genotype', 'diploidGtIndex', [SInt(j), SInt(k)]),
-                                 ev3.call('Genotype', 'diploidGtIndex', [SInt(j2), SInt(k2)])))
+                                 ev3.call('Genotype', 'diploidGtIndex', [SInt(j2), SInt(k2)]),
+                                 ev3.call('Genotype', 'diploidGtIndex', [SInt(z3.BitVecVal(0, 32)), SInt(z3.BitVecVal(0, 32))])))
     bad_c = []
     for p in pc_:
         pc = z3.And(*p.pc) if p.pc else z3.BoolVal(True)
         if p.kind != 'return':
             bad_c.append(pc)
         else:
-            x, y = p.value
-            lex = z3.Or(k < k2, z3.And(k == k2, j < j2))
-            bad_c.append(z3.And(pc, lex != (x.t < y.t)))
+            x, y, z0 = p.value
+            bad_c.append(z3.And(pc, z3.Or(y.t != x.t + 1, z0.t != 0)))
 
     def orr(xs):
         return z3.Or(*xs) if len(xs) > 1 else (xs[0] if xs else z3.BoolVal(False))
@@ -563,7 +563,7 @@ def scala_bijection(R, ctx, bound):
         (f'(iii) engine: diploidGtIndex(j,k) == k(k+1)/2 + j (VCF formula), index < {B}', list(it.pre), orr(bad_idx), ('pair',)),
         (f'(iii) engine: allelePair(diploidGtIndex(j,k)) == (j,k), index < {B} (allelePairSqrt through its contract)', list(it.pre), orr(bad_pair), ('pair',)),
         (f'(iii) engine: diploidGtIndex(allelePair(i)) == i for 0 <= i < {B} (allelePairSqrt through its contract)', list(it2.pre), orr(bad_b), ('index',)),
-        ('(iii) engine: index order == VCF order (k, then j) for k, k\' < 2^15', list(it3.pre), orr(bad_c), ('order',)),
+        ('(iii) engine: index(0,0) = 0 and the VCF successor of (j,k) has index(j,k)+1, k < 2^15 (index order == VCF order)', list(it3.pre), orr(bad_c), ('order',)),
     ]
     for name, pre, vio, kind in qs:
         if z3.is_false(z3.simplify(vio)):
@@ -589,12 +589,13 @@ def scala_bijection(R, ctx, bound):
                 what = f'Genotype.diploidGtIndex({j0},{k0}) = {k1, idx}; allelePair of it = {k2_, pr} (model-level)'
                 rp = {'kind': 'scala-pair', 'j': j0, 'k': k0}
             else:
-                vals = [model.get(n, 0) for n in ('j', 'k', 'j2', 'k2')]
+                j0, k0 = model.get('j', 0), model.get('k', 0)
+                vals = [j0, k0] + ([j0 + 1, k0] if j0 < k0 else [0, k0 + 1])
                 _, x = scalak.run_concrete(P, 'Genotype', 'diploidGtIndex', vals[:2])
                 _, y = scalak.run_concrete(P, 'Genotype', 'diploidGtIndex', vals[2:])
-                lex = (vals[1], vals[0]) < (vals[3], vals[2])
-                bad = lex != (x < y)
-                what = f'diploidGtIndex{tuple(vals[:2])}={x}, diploidGtIndex{tuple(vals[2:])}={y}: order differs from VCF order (model-level)'
+                _, z0 = scalak.run_concrete(P, 'Genotype', 'diploidGtIndex', [0, 0])
+                bad = (y != x + 1) or z0 != 0
+                what = f'diploidGtIndex{tuple(vals[:2])}={x}, successor diploidGtIndex{tuple(vals[2:])}={y}, index(0,0)={z0}: not VCF order (model-level)'
                 rp = {'kind': 'scala-order', 'vals': vals}
             if not bad:
                 raise HarnessError(f'{name}: counterexample does not reproduce on the concrete Scala evaluation: {what}')
@@ -647,10 +648,10 @@ def run(R):
     ctx = Ctx(R)
     for f in SCALA:
         R.encode(f'{f} (whole file hashed; defs used are listed individually)', loader.read(f))
-    small_tables(R, ctx)
-    encode_and_roundtrip(R, ctx, bound)
-    scala_bijection(R, ctx, bound)
-    sqrt_contracts(R, ctx, bound)
+    for fn in (small_tables, encode_and_roundtrip, scala_bijection, sqrt_contracts):
+        t0 = time.time()
+        fn(R, ctx) if fn is small_tables else fn(R, ctx, bound)
+        R.log(f'[C34] {fn.__name__}: {time.time() - t0:.1f}s')
 
 
 def replay(path):
